@@ -5,10 +5,16 @@ import (
 	_ "verifmc/props/c02"
 	_ "verifmc/props/c03"
 	_ "verifmc/props/c04"
+	_ "verifmc/props/c14"
 	_ "verifmc/props/c15"
+	_ "verifmc/props/c16"
+	_ "verifmc/props/c20"
+	_ "verifmc/props/c22"
+	_ "verifmc/props/c23"
 	_ "verifmc/props/c25"
 	_ "verifmc/props/c26"
 	_ "verifmc/props/c30"
 	_ "verifmc/props/c33"
 	_ "verifmc/props/c35"
+	_ "verifmc/props/c36"
 )
